@@ -200,8 +200,16 @@ def one_dataset(obs, rng, conv, spec, ctx):
     from matplotlib.figure import Figure
     from matplotlib.transforms import Affine2D
     import cartopy.crs as ccrs
+    kw = {}
+    if conv in ('cf2d', 'shoc_simple') and chance(rng, 0.4):
+        # cells without geometry AND a cell with a self-crossing outline (dropped from the collection) in one dataset: the
+        # position of a cell among the drawn ones then differs from its linear index in two ways at once
+        kw = dict(bounds=pick(rng, ['var', 'coord']), bowtie=True, nj=int(rng.integers(3, 7)), ni=int(rng.integers(3, 7)),
+                  holes=pick(rng, ['scatter', 'line', 'block', 'mixed']))
     model = make_dressed(rng, conv, dress=dict(time=chance(rng, 0.7), depth=chance(rng, 0.6), band=chance(rng, 0.3),
-                                               per_kind=(1, 2), nongrid=1))
+                                               per_kind=(1, 2), nongrid=1), **kw)
+    if model.encoding.get('bowtie') and any(c is None for c in model.cells):
+        obs.cls('dataset:holes-and-an-invalid-outline')
     add_plot_variables(model, rng)
     spec['model'] = model.describe()
     if model.skip_cells:
